@@ -58,7 +58,8 @@ Lemma wire_fuel_bound (c : chunk cont) img : Forall bent_ok (c_bes c) ->
   chunk_write cont pc_write c = Some img -> wire_fuel cont c <= length img + fuel_slack.
 Proof.
   intros Hb Hw. unfold chunk_write in Hw. destruct (4096 <? lenN (c_secs c))%N; [discriminate|].
-  inversion Hw; subst img. clear Hw. unfold wire_fuel, fuel_slack. rewrite !app_length.
+  injection Hw as Hw. subst img. unfold wire_fuel, fuel_slack.
+  idtac.
   pose proof (hm_write_length (raw_of (hMB (c_hm c))) (raw_of (hWS (c_hm c)))).
   pose proof (data_length (c_secs c)). pose proof (bes_length (c_bes c) Hb).
   assert (length (chunk_data cont pc_write c) <= length (fst (wr TByteArray (VBytes (chunk_data cont pc_write c) [])))).
